@@ -9,6 +9,21 @@ NOTE = ("Trusted: Coq 8.16.1 kernel + vm_compute; tools/gen_consts.py; the Rust 
 TECH = "machine-checked proof in Coq (Rocq) over a Gallina model + differential correspondence check against the Rust code"
 
 CLAIMED = {
+    "C01": {
+        "text": "Proved (props/C01.v, all interleavings of queries at one serving node): c01_server_contract - a get_peers from "
+                "an IP is answered with a token which, presented by announce_peer from any port of that IP within 10 minutes, is never "
+                "refused (acknowledgement, or 202 when 500 live pairs are stored); once acknowledged, every get_peers for the info-hash from "
+                "a same-family requester less than 24 h later contains the contact (source IP with the announced port, or the source port "
+                "when implied) unless the reply is cut at the datagram cap, and none 24 h later or more does absent a re-announce; "
+                "c01_server_contract_bounded states it on observable data only; c01_announce_then_find is the peer-store half on every "
+                "history; c01_run_*_projection tie the handler's run to the token-store and peer-store runs of C06/C07. Decided per run "
+                "(partial): the multi-node composition - 2..9 real nodes on the simulated loss-free network in virtual time up to 26 h "
+                "(IPv4/IPv6, explicit/implied port, several announcers, re-announce, searches at offsets 0 s .. > 24 h incl. the 24 h "
+                "boundary, latencies 1 ms .. 749 ms): must-yield / must-not-yield / nothing-unannounced on the search streams. Known "
+                "finding F-C01 (one-way latency in [0.75 s, 1 s)) is reproduced on every run and reported as KNOWN-FINDING.",
+        "ref": "7/C01", "axioms": "none",
+        "note_extra": "PARTIAL: the network-level statement (c01_network in DESIGN.md) is decided on the explored runs, not proved; the theorems cover one serving node against every query history. Multi-node runs use the terse event log, so their handler events are not replayed through the model (the handler model is tied to the code by the replays of C03/C05/C06/C07).",
+    },
     "C02": {
         "text": "Proved (props/C02.v): c02_binary_search_correct - the branch-free binary search of core::slice, as used by "
                 "insert_sorted_node, returns a correct insertion point on a sorted list; c02_candidates_stay_sorted and the three "
